@@ -52,18 +52,19 @@ type c08Viol struct {
 }
 
 type c08Result struct {
-	Histories      int            `json:"histories"`
-	Ops            int            `json:"ops"`
-	Overlaps       map[string]int `json:"overlaps"`
-	Signatures     []string       `json:"signatures"`
-	Violations     []c08Viol      `json:"violations"`
-	Inconclusive   []string       `json:"inconclusive"`
-	Stuck          string         `json:"stuck,omitempty"` // goroutine dump when a history did not finish
-	PorcupineOK    int            `json:"porcupine_ok"`
-	KeysChecked    int            `json:"keys_checked"`
-	RefusedBatches int            `json:"refused_batches"` // PutMany calls refused midway (over-long CID)
-	FinalSnapshots int            `json:"final_snapshots"` // histories whose file was compared with its state at the terminal operation's return
-	Sample         any            `json:"sample,omitempty"`
+	Histories         int            `json:"histories"`
+	Ops               int            `json:"ops"`
+	Overlaps          map[string]int `json:"overlaps"`
+	Signatures        []string       `json:"signatures"`
+	Violations        []c08Viol      `json:"violations"`
+	Inconclusive      []string       `json:"inconclusive"`
+	Stuck             string         `json:"stuck,omitempty"` // goroutine dump when a history did not finish
+	PorcupineOK       int            `json:"porcupine_ok"`
+	KeysChecked       int            `json:"keys_checked"`
+	CancelledCtxCalls int64          `json:"cancelled_ctx_calls"` // Has calls made under a context cancelled at call time
+	RefusedBatches    int            `json:"refused_batches"`     // PutMany calls refused midway (over-long CID)
+	FinalSnapshots    int            `json:"final_snapshots"`     // histories whose file was compared with its state at the terminal operation's return
+	Sample            any            `json:"sample,omitempty"`
 }
 
 // ---------------------------------------------------------------- child: run histories under -race
@@ -429,6 +430,9 @@ func c08History(d c08Desc, seed int64, dir string, res *c08Result) ([]c08Op, []c
 			for i := 0; i < opsPer; i++ {
 				op := c08Op{Client: g, Key: cr.Intn(nkeys), Key2: -1}
 				kinds := []string{"put", "put", "put", "putmany", "has", "has", "get", "get", "getsize", "list", "roots"}
+				if d.Kind == "blockstore" {
+					kinds = append(kinds, "hasc") // Has under a context that is cancelled while the call may be waiting
+				}
 				if d.Kind == "blockstore" && d.Cfg.MaxCid > 0 {
 					kinds = append(kinds, "putmanyx", "putmanyx")
 				}
@@ -465,6 +469,20 @@ func c08History(d c08Desc, seed int64, dir string, res *c08Result) ([]c08Op, []c
 					default:
 						op.Out = "ok" // replaced below by closed / err:
 					}
+				case "hasc":
+					// a caller that gives up: the context is cancelled at about the time the call starts. Whatever
+					// the call answers (a result or the context's error), the store must stay usable for everyone
+					cctx, cancel := context.WithCancel(context.Background())
+					go func() { runtime.Gosched(); cancel() }()
+					var h bool
+					h, err = bsStore.bs.Has(cctx, lab.ToCid(blks[op.Key].Cid))
+					cancel()
+					op.Kind = "has"
+					op.Out = fmt.Sprint(h)
+					if err != nil && (errors.Is(err, context.Canceled) || errors.Is(err, context.DeadlineExceeded)) {
+						op.Kind, op.Out, err = "has-cancelled", "ctx", nil
+					}
+					atomic.AddInt64(&res.CancelledCtxCalls, 1)
 				case "has":
 					var h bool
 					h, err = st.has(op.Key)
@@ -965,6 +983,7 @@ func runC08(t *mon.T, raw json.RawMessage) {
 	t.CoverN("keys-linearizable", res.PorcupineOK)
 	t.CoverN("files-compared-with-their-state-at-finalize-return", res.FinalSnapshots)
 	t.CoverN("putmany-batches-refused-midway", res.RefusedBatches)
+	t.CoverN("has-under-a-cancelled-context", int(res.CancelledCtxCalls))
 	t.CoverN("distinct-interleaving-signatures", len(res.Signatures))
 	for k, n := range res.Overlaps {
 		t.CoverN("overlap:"+k, n)
